@@ -23,7 +23,7 @@ LEVEL = "proof"
 META = {
     "category": "proof",
     "technique": "Coq invariant + refinement proofs on a function-by-function model of map.cb/queue.cb/vector.cb "
-                 "(AVL with stored heights, pointer-level linked lists, malloc/free log) + extracted-model "
+                 "(AVL with stored heights, pointer-level linked lists, malloc/free log; read = latest write of the history, by induction over the history) + extracted-model "
                  "differential run of generated Cb programs incl. the interpreter's malloc/free trace",
     "text": "Machine-checked theorems about Gallina transcriptions of stdlib/std/map.cb (update_height, get_balance, "
             "rotate_left/right with null guards, insert_to_node, remove_from_node with in-order successor, insert counting "
